@@ -132,6 +132,7 @@ class C17(Check):
         "path masked in logs); (ii-c) index buffer {1,2,3,5,7,250000} through cache files and pipeline output; (iii) all permutations of 4 "
         "consecutive in-process invocations (3 pretext-to-asm inputs + 1 asm-format) vs fresh-process runs; (iv) FASTA vs AGP vs TPF input: same "
         "output files. non-trivial = configuration that differs from the reference configuration in at least one dimension"
+        " Cache states cold / warm / stale / half-updated; cwd in {/, scratch, output directory}; digest scope with two or three tags per piece; an input scaffold that ends in Ns in the three-format comparison."
     )
     assumptions = [
         "hash-order dependence other than tag sets is observed only through the enumerated seeds",
